@@ -588,6 +588,9 @@ func toInt64(val interface{}) (n int64, err error) {
 			return int64(rv.Uint()), nil
 		} else if rv.CanFloat() {
 			return floatToInt64(rv.Float())
+		} else if rv.Kind() == reflect.String {
+			// e.g. json.Number
+			return strconv.ParseInt(rv.String(), 10, 64)
 		}
 	}
 	return 0, fmt.Errorf("cannot coerse '%T' to int64", val)
@@ -677,6 +680,9 @@ func toUInt64(val interface{}) (uint64, error) {
 			return uint64(rv.Int()), nil
 		} else if rv.CanFloat() {
 			return floatToUInt64(rv.Float())
+		} else if rv.Kind() == reflect.String {
+			// e.g. json.Number
+			return strconv.ParseUint(rv.String(), 10, 64)
 		}
 	}
 	return 0, fmt.Errorf("cannot coerse '%T' to uint64", val)
@@ -786,6 +792,11 @@ func toDecimal64(val interface{}) (float64, error) {
 		return x, nil
 	case string:
 		return strconv.ParseFloat(x, 64)
+	default:
+		if rv := reflect.ValueOf(val); rv.Kind() == reflect.String {
+			// e.g. json.Number
+			return strconv.ParseFloat(rv.String(), 64)
+		}
 	}
 	return 0, fmt.Errorf("cannot coerse '%T' to float64", val)
 }
